@@ -28,6 +28,7 @@ import (
 	"time"
 
 	"github.com/pquerna/cachecontrol"
+	"github.com/pquerna/cachecontrol/cacheobject"
 
 	"github.com/dadrus/heimdall/internal/cache"
 	"github.com/dadrus/heimdall/internal/x/stringx"
@@ -71,6 +72,13 @@ func (rt *RoundTripper) cachedResponse(req *http.Request) (*http.Response, error
 func (rt *RoundTripper) cacheResponse(req *http.Request, resp *http.Response) {
 	reasons, expires, err := cachecontrol.CachableResponse(req, resp, cachecontrol.Options{PrivateCache: true})
 	if err != nil || len(reasons) != 0 {
+		return
+	}
+
+	// stored responses cannot be validated with the origin server. So those, which must not be
+	// reused without validation (no-cache), are not stored.
+	directives, err := cacheobject.ParseResponseCacheControl(resp.Header.Get("Cache-Control"))
+	if err != nil || directives.NoCachePresent {
 		return
 	}
 
